@@ -42,6 +42,14 @@ if [ -f partdrv.c ]; then
   $CC $CFLAGS -c partdrv.c -o "$OUT/obj/d_partdrv.o"
   $CC $LDX -o "$OUT/partdrv" $(ls "$OUT"/obj/*.o | grep -v '/h_\|/d_\|lp_lp.o') "$OUT/obj/d_partdrv.o" -lm -lpthread
 fi
+if [ -f mqdrv.c ]; then
+  $CC $CFLAGS -c mqdrv.c -o "$OUT/obj/d_mqdrv.o"
+  $CC $LDX -o "$OUT/mqdrv" $(ls "$OUT"/obj/*.o | grep -v '/h_twh\|/d_') "$OUT/obj/d_mqdrv.o" -Wl,--wrap=pthread_create,--wrap=pthread_join -lm -lpthread
+fi
+if [ -f bardrv.c ]; then
+  $CC $CFLAGS -c bardrv.c -o "$OUT/obj/d_bardrv.o"
+  $CC $LDX -o "$OUT/bardrv" $(ls "$OUT"/obj/*.o | grep -v '/h_twh\|/d_') "$OUT/obj/d_bardrv.o" -Wl,--wrap=pthread_create,--wrap=pthread_join -lm -lpthread
+fi
 if [ -f ckptdrv.c ]; then
   # the allocator rebuilt with small arena constants (guarded override in mm/buddy/buddy.h)
   SM="-DROOTSIM_VERIF_B_TOTAL_EXP=8U -DROOTSIM_VERIF_B_BLOCK_EXP=4U"
